@@ -605,6 +605,21 @@ public:
       for (size_t i = 0; i < vals.size(); ++i) rt(std::abs(vals[i] - d->pm.values[i]) <= 0.6 * std::pow(10.0, -d->pm.prec) + 1e-14 * std::abs(vals[i]), "plist", "value", d->pm.names[i] + " wrote " + fmtd(d->pm.values[i]) + " read " + fmtd(vals[i]) + " at precision " + std::to_string(d->pm.prec));
       ctx.probe("compared:plist");
     }
+    // the list just read is searched with wildcard patterns made from its own (possibly damaged) names
+    if (!names.empty()) {
+      bpp::ParameterList pl; uint64_t acc = 13;
+      for (size_t i = 0; i < names.size() && i < 12; ++i) guard("ParameterList::addParameter", [&] { pl.addParameter(bpp::Parameter(names[i], vals[i])); });
+      const std::string& a = names.front(); const std::string& z = names.back();
+      std::vector<std::string> pats = {a, a.substr(0, 2) + "*", "*" + z.substr(z.size() / 2), (a.empty() ? std::string() : a.substr(0, 1)) + "*" + (z.empty() ? std::string() : z.substr(z.size() - 1)), "*", "", "**", a + "*" + z + "*x"};
+      for (const std::string& pat : pats) {
+        std::vector<std::string> got;
+        int g = guard("ParameterList::getMatchingParameterNames", [&] { got = pl.getMatchingParameterNames(pat); });
+        acc = acc * 31 + got.size();
+        if (g == 0) for (const std::string& nm : got) if (!pl.hasParameter(nm)) ctx.fail("invariant:wildcard-match", "invariant:wildcard-match:foreign-name", "getMatchingParameterNames('" + printable(pat) + "') returned a name that is not in the list");
+        if (g == 0 && &pat == &pats[0] && pat.find('*') == std::string::npos && pl.hasParameter(pat) && got.empty()) ctx.fail("invariant:wildcard-match", "invariant:wildcard-match:own-name", "a parameter's own name '" + printable(pat) + "' used as pattern matches nothing");
+      }
+      ctx.ev("m=" + std::to_string(acc));
+    }
     ctx.evi("rows", static_cast<long>(names.size())); ctx.evi("raised", raised);
     ctx.ok();
   }
